@@ -387,3 +387,108 @@ def r8_splicer_maps(ctx):
 
 
 RULES.append(r8_splicer_maps)
+
+
+def r9_traversal_by_identity(ctx):
+    """C11.R9: the generic traversal transforms every node exactly once and wires each consumer to its own transformed parents, also when a
+    transformer renames nodes in place to names that other, not yet visited nodes still carry (progress must be tracked per node object,
+    not per name): chain s0 -> s1 -> s2 renamed to s1, s2, s3."""
+    repo = ctx.repo
+    fi = repo.func(f"{G}.transform.Transformer.transform")
+    ctx.analysed(fi.qual)
+    s0 = _node("s0", {}, ["0"], payload="f0")
+    s1 = _node("s1", {"x": _out(s0, "0")}, ["0"], payload="f1")
+    s2 = _node("s2", {"x": _out(s1, "0")}, ["0"], payload="f2")
+    for nd, nm in ((s0, "s0"), (s1, "s1"), (s2, "s2")):
+        nd.fields["name"] = nm
+    ren = Obj(f"{G}.rename._Renamer", {"func": ModelFn("shift", lambda run, a, k, n, f: "s" + str(int(a[0][1:]) + 1))}, name="RENAMER")
+    g = Obj(f"{G}.graph.Graph", {"sinks": [s2]}, name="GRAPH")
+    ip = Interp(repo, inline=lambda f: f.qual.startswith(G + "."), max_while=12, max_concrete_iter=12)
+    paths = ip.explore(fi, args={"self": ren, "graph": g})
+    ctx.evals(len(paths))
+    if len(paths) != 1 or paths[0].exit[0] != "return":
+        ctx.undecided("C11.R9", loc(fi), f"the traversal of the model chain is not a single completed path: {[(p.exit[0], vkey(p.exit[1])[:60]) for p in paths][:3]}")
+        return
+    p = paths[0]
+    cb = [e for e in p.effects if e.kind == "call" and (e.data.get("qual") or "").endswith("rename._Renamer.node")]
+    visited = [getattr(e.data["args"][0], "fields", {}).get("payload") if e.data["args"] else None for e in cb]
+    rv = p.exit[1]
+    sinks = rv.args[0] if isinstance(rv, Obj) and rv.args else (rv.fields.get("sinks") if isinstance(rv, Obj) else None)
+    chain = []
+    cur = sinks[0] if isinstance(sinks, list) and len(sinks) == 1 else None
+    for _ in range(5):
+        if not isinstance(cur, Obj):
+            break
+        chain.append((cur.fields.get("name"), cur.fields.get("payload")))
+        ins = cur.fields.get("inputs") or {}
+        nxt = list(ins.values())[0] if len(ins) == 1 else None
+        if isinstance(nxt, Attr) and isinstance(nxt.base, Sym):  # getattr(<transformed node>, <output name>): the node is referred to by its model name
+            byname = {e.data["args"][0].name: e.data["args"][0] for e in cb if e.data["args"] and isinstance(e.data["args"][0], Obj)}
+            cur = byname.get(nxt.base.name)
+        else:
+            cur = nxt.fields.get("parent") if isinstance(nxt, Obj) and "parent" in nxt.fields else (nxt.args[0] if isinstance(nxt, Obj) and nxt.args else None)
+    want_chain = [("s3", "f2"), ("s2", "f1"), ("s1", "f0")]
+    if sorted(map(str, visited)) != ["f0", "f1", "f2"] or chain != want_chain:
+        ctx.violation("C11.R9", fi.qual, loc(fi), "every node transformed once, consumers wired to their own parents",
+                      f"chain f0 -> f1 -> f2 with nodes renamed in place s_i -> s_(i+1): the node callback ran for payloads {visited}, the resulting sink denotes "
+                      f"{chain}; expected each node once and the chain {want_chain} — a step of the computation disappears when progress is tracked by (mutable) names")
+    else:
+        ctx.ok("C11.R9", loc(fi), "traversal keyed by node identity: in-place renaming onto names still in use loses nothing")
+
+
+RULES.append(r9_traversal_by_identity)
+
+
+def r10_split_history(ctx):
+    """C11.R10: a history through the Splitter's own callbacks (state from Splitter.__init__): producer pb in part K2 with output o2, two
+    consumers n and n2 in part K1 — every cut input is reported with its own CutEdge (destination node and input), so that re-joining
+    along the reported cuts restores every original edge."""
+    repo = ctx.repo
+    init = repo.func(f"{G}.split.Splitter.__init__")
+    nfi = repo.func(f"{G}.split.Splitter.node")
+    ofi = repo.func(f"{G}.split.Splitter.output")
+    ctx.analysed(nfi.qual)
+    keyof = {"pb": "K2", "n": "K1", "n2": "K1"}
+    KEY = ModelFn("key", lambda run, a, k, n, f: keyof[a[0].fields["name"]])
+    ps = Interp(repo).explore(init, args={"key": KEY})
+    heap = {k: v for k, v in ps[0].heap.items() if k.startswith("self.")} if len(ps) == 1 else None
+    if heap is None:
+        ctx.undecided("C11.R10", loc(init), "Splitter.__init__ is not a single path")
+        return
+    heap["self.key"] = KEY
+    PB = _node("pb", {}, ["o2"])
+    PB.fields["name"] = "pb"
+    models = {f"{NODE}.get_output": lambda run, a, k, n, f: _out(run.cur_call.get("recv_value"), a[0] if a else "0"),
+              f"{G}.split.Splitter.cut_edge": lambda run, a, k, n, f: (_node("cutsink"), Obj(NODE, {"name": "cutsrc", "outputs": ["0"], "inputs": {}}, name="cutsrc"))}
+
+    def step(fi, heap, args):
+        ps = [q for q in Interp(repo, call_models=models).explore(fi, env=heap, args=args) if q.exit[0] == "return"]
+        ctx.evals(1)
+        if len(ps) != 1:
+            raise RuntimeError(f"{fi.name}: {len(ps)} completed paths")
+        return ps[0].exit[1], {k: v for k, v in ps[0].heap.items() if k.startswith("self.")}
+    try:
+        tpb, heap = step(nfi, heap, {"node": PB, "inputs": {}})
+        o_pb, heap = step(ofi, heap, {"tnode": tpb, "output": "o2"})
+        N1 = _node("n", {"b": Sym("OLD")}, ["0"])
+        N1.fields["name"] = "n"
+        _, heap = step(nfi, heap, {"node": N1, "inputs": {"b": o_pb}})
+        N2 = _node("n2", {"c": Sym("OLD2")}, ["0"])
+        N2.fields["name"] = "n2"
+        _, heap = step(nfi, heap, {"node": N2, "inputs": {"c": o_pb}})
+    except RuntimeError as e:
+        ctx.undecided("C11.R10", loc(nfi), f"cannot drive the splitter history: {e}")
+        return
+    cuts = heap.get("self.cuts")
+    got = sorted((c.fields.get("source_node"), c.fields.get("source_output"), c.fields.get("dest_node"), c.fields.get("dest_input"))
+                 for c in cuts if isinstance(c, Obj)) if isinstance(cuts, list) else None
+    want = [("pb", "o2", "n", "b"), ("pb", "o2", "n2", "c")]
+    if got != want:
+        ctx.violation("C11.R10", nfi.qual, loc(nfi), "every cut input reported",
+                      f"pb.o2 (part K2) consumed by n.b and n2.c (both in part K1): reported cut edges {got}; expected {want} — an input replaced by a cut source without "
+                      f"a CutEdge of its own cannot be re-connected when the parts are joined again")
+    else:
+        ctx.ok("C11.R10", loc(nfi), "two consumers of one foreign output in one part: one CutEdge each")
+
+
+RULES.append(r10_split_history)
